@@ -2,7 +2,7 @@
      model cases.txt            -> one line per case:  <model observation> | <oracle verdict on the model's own line>
      model cases.txt impl.out   -> one line per case:  oracle verdict (extracted spec) on the IMPLEMENTATION's line
    Case lines:   pool sT aT S ops.. | pa sT aT s ops.. | malloc sT aT ops.. | aligned sT aT Al ops.. |
-                 debug page sT aT ops.. | isaligned p align        (ops: a<n> allocate(n), f<i> free i-th live block)
+                 debug page sT aT ops.. | isaligned p align | alignedbase align off       (ops: a<n> allocate(n), f<i> free i-th live block)
    Observation tokens: pool/pa: G<u>,<size>,<al>,<as>,<cs>,<el>  then per op  c<k>+<off> | bad_alloc | F , then D<bytes>:<c>.<c>..
                  malloc/aligned: ok | bad_alloc | F        debug: ok:o<ptr mod page> | bad_alloc | F | ABORT(..)
    The implementation appends !flag to a token for address-level failures it sees itself (misaligned, overlap, ...). *)
@@ -43,6 +43,8 @@ let parse_obs (t : string) : c15_obs =
 
 let rec take k l = if k = 0 then [] else match l with [] -> [] | h :: t -> h :: take (k - 1) t
 let has_bang s = String.contains s '!'
+let starts p s = String.length s >= String.length p && String.sub s 0 (String.length p) = p
+let is_crash s = starts "CRASH" s || starts "ABORT" s || starts "EXC" s || starts "HANG" s || starts "NOT-RUN" s
 let split s = List.filter (fun x -> x <> "") (String.split_on_char ' ' (String.trim s))
 
 (* first prefix length at which `ok k` fails *)
@@ -53,9 +55,10 @@ let geom_tok g = Printf.sprintf "G%s,%s,%s,%s,%s,%s" (dec_of_n g.g_unionSize) (d
 
 (* ---- pool ---- *)
 let pool_oracle sT aT ops (toks : string list) : string =
-  match List.find_opt has_bang toks with
-  | Some t -> "REJECT harness flag " ^ t
-  | None ->
+  match List.find_opt has_bang toks, List.find_opt is_crash toks with
+  | Some t, _ -> "REJECT harness flag " ^ t
+  | None, Some t -> "REJECT trace incomplete: " ^ t
+  | None, None ->
     let nops = List.length ops in
     if List.length toks <> nops + 2 then
       "REJECT trace incomplete: " ^ (match List.rev toks with t :: _ -> t | [] -> "(empty)")
@@ -71,7 +74,9 @@ let pool_oracle sT aT ops (toks : string list) : string =
         with _ -> N0, [O; O; O; O; O; O; O; O; O; O; O; O; O; O; O; O; O] in
       if not (c15_spec_trace sT aT bytes O [] ops obs) then begin
         let k = first_bad nops (fun k -> c15_spec_trace sT aT bytes O [] (take k ops) (take k obs)) in
-        Printf.sprintf "REJECT block predicate fails at op %d: %s" (k - 1) (List.nth toks k)
+        (match List.nth ops (k - 1) with
+         | OpAlloc n when n <> n_of_int 1 -> Printf.sprintf "REJECT allocate(n) with n <> 1 not refused at op %d: %s" (k - 1) (List.nth toks k)
+         | _ -> Printf.sprintf "REJECT block predicate fails at op %d: %s" (k - 1) (List.nth toks k))
       end else if not (c15_spec_destroy (c15_spec_nchunks obs) rel) then "REJECT destroy does not release every chunk once: " ^ d
       else "ok"
     end
@@ -91,9 +96,10 @@ let do_pool pa sT aT s opsl =
 
 (* ---- malloc / aligned ---- *)
 let sys_oracle sT ops (toks : string list) : string =
-  match List.find_opt has_bang toks with
-  | Some t -> "REJECT harness flag " ^ t
-  | None ->
+  match List.find_opt has_bang toks, List.find_opt is_crash toks with
+  | Some t, _ -> "REJECT harness flag " ^ t
+  | None, Some t -> "REJECT trace incomplete: " ^ t
+  | None, None ->
     if List.length toks <> List.length ops then "REJECT trace incomplete: " ^ (match List.rev toks with t :: _ -> t | [] -> "(empty)")
     else
       let rec go ops toks nlive = match ops, toks with
@@ -179,6 +185,13 @@ let () =
            b (c15_isAligned (nn 1) (nn 2)) ^ " | " ^ (if c15_isAligned (nn 1) (nn 2) = c15_spec_isAligned (nn 1) (nn 2) then "ok" else "REJECT model differs from p mod align = 0")
          | "isaligned", Some l ->
            if String.trim l = (if c15_spec_isAligned (nn 1) (nn 2) then "1" else "0") then "ok" else "REJECT isAligned(" ^ List.nth t 1 ^ "," ^ List.nth t 2 ^ ") = " ^ l
+         | "alignedbase", None ->
+           (* AlignedBase<align>::operator new(count, ptr): violatedAlignment iff !isAligned(ptr, align); ptr = 4096-aligned buffer + off *)
+           let m = if c15_isAligned (N.add (n_of_int 1048576) (nn 2)) (nn 1) then "placed" else "violated" in
+           m ^ " | " ^ (if (m = "placed") = c15_spec_isAligned (nn 2) (nn 1) then "ok" else "REJECT model differs from off mod align = 0")
+         | "alignedbase", Some l ->
+           if String.trim l = (if c15_spec_isAligned (nn 2) (nn 1) then "placed" else "violated") then "ok"
+           else "REJECT AlignedBase placement new at offset " ^ List.nth t 2 ^ " for alignment " ^ List.nth t 1 ^ ": " ^ l
          | _, _ -> "UNKNOWN-KIND")
       with e -> "DRIVER-ERROR " ^ Printexc.to_string e in
     print_endline out
